@@ -20,6 +20,8 @@ CHECKS = {
          "`+digits` values are unconstrained by the property (accepted by Rust's parser); the oracle accepts either outcome", "6/C07"),
  "C11": ("Theorems (generic in the store: every outcome the storage layer can produce): every response the handler emits for any request of any opcode satisfies the layout predicate wellFormed (opcode and opaque echoed, status from the protocol table, 4 flag bytes exactly on hits, key echoed iff get-key, 8 bytes for counters, message text on errors, body length = extras+key+value) (C11_wellformed); a well-formed response occupies exactly 24+body_length bytes (C11_frame_length); magic 0x81 and data type 0. Tie: seq suite over all opcodes incl. unsupported and non-standard frames; every response of every suite is parsed by an independent parser in the harness.",
          "value lengths below 2^32-300 (body_length is a u32)", "6/C11"),
+ "C19": ("Theorems (generic in the store): switching any request to the quiet opcode of its command leaves the store after handling identical and relates the responses exactly as the property says (errors identical apart from the opcode, successful quiet mutations and quiet get misses silent, quiet hits same payload) (C19_step); for command sequences of any length and any subset of positions switched, the final store is identical (C19_histories). Tie: seq suite in twin mode - every generated program is re-run with a random subset of positions toggled loud<->quiet; dumps after every request and the response relation are compared on the implementation, and both runs are compared with the model.",
+         "the eleven commands with a quiet twin: set/add/replace/delete/incr/decr/append/prepend/flush/get/getk", "6/C19"),
  "C08": ("Theorems: delete removes exactly the addressed key (frame), not found / key exists rules, deleted stays gone; immediate flush hides everything at all times, delayed flush hides everything from now+n on, flushed stays gone over any history until re-stored, a flush never makes anything more visible, later stores unaffected. Tie: seq multi-key profile with deletes and immediate/delayed flushes at non-zero times; membership-and-deadline oracle.",
          "delete / CAS-store addressed to an expired uncollected record may answer as present or absent (the property does not list them)", "6/C08"),
 }
